@@ -959,7 +959,7 @@ func genBuiltinDeferWrapper(n *node, in, out []func(*frame) reflect.Value, fn fu
 			val := make([]reflect.Value, len(in)+1)
 			inTypes := make([]reflect.Type, len(in))
 			for i, v := range in {
-				val[i+1] = v(f)
+				val[i+1] = copyValue(v(f))
 				inTypes[i] = val[i+1].Type()
 			}
 			outTypes := make([]reflect.Type, len(out))
@@ -1312,7 +1312,8 @@ func call(n *node) {
 			val := make([]reflect.Value, len(values)+1)
 			val[0] = value(f)
 			for i, v := range values {
-				val[i+1] = v(f)
+				// The operands of a deferred call are fixed at the defer statement.
+				val[i+1] = copyValue(v(f))
 			}
 			f.deferred = append([][]reflect.Value{val}, f.deferred...)
 			return tnext
@@ -1445,6 +1446,16 @@ func call(n *node) {
 		}
 		return tnext
 	}
+}
+
+// copyValue returns a copy of v which does not alias the variable v may refer to.
+func copyValue(v reflect.Value) reflect.Value {
+	if !v.IsValid() || !v.CanAddr() {
+		return v
+	}
+	c := reflect.New(v.Type()).Elem()
+	c.Set(v)
+	return c
 }
 
 func getFrame(f *frame, l int) *frame {
@@ -1589,7 +1600,8 @@ func callBin(n *node) {
 			val := make([]reflect.Value, l+1)
 			val[0] = value(f)
 			for i, v := range values {
-				val[i+1] = getBinValue(getMapType, v, f)
+				// The operands of a deferred call are fixed at the defer statement.
+				val[i+1] = copyValue(getBinValue(getMapType, v, f))
 			}
 			f.deferred = append([][]reflect.Value{val}, f.deferred...)
 			return tnext
